@@ -9,6 +9,7 @@ import (
 	"sort"
 	"strings"
 	"sync"
+	"time"
 
 	"google.golang.org/protobuf/proto"
 
@@ -173,6 +174,49 @@ func busBody(name string, senders [][]string, ls []lspec) func() {
 			outs = append(outs, fmt.Sprintf("L%d=%s", i, strings.Join(r.got, "")))
 		}
 		verifrt.Logf("OUT %s", strings.Join(outs, " "))
+	}
+}
+
+// busStalledBody: a listener that stopped receiving without hanging up stands first in line; the sender's patience
+// (its context) runs out while it waits there. The listeners behind it are ready: the event is theirs all the same -
+// a consumer that stops receiving costs the others nothing but the wait.
+func busStalledBody(name string, healthy int) func() {
+	return func() {
+		bus := &minibus.Bus{}
+		sctx, scancel := context.WithCancel(context.Background())
+		stalled := bus.Listen(sctx)
+		got := make([][]string, healthy)
+		var ctxs []context.CancelFunc
+		for i := 0; i < healthy; i++ {
+			i := i
+			ctx, cancel := context.WithCancel(context.Background())
+			ctxs = append(ctxs, cancel)
+			ch := bus.Listen(ctx)
+			go func() {
+				for e := range ch {
+					got[i] = append(got[i], e.(string))
+				}
+			}()
+		}
+		tctx, tcancel := context.WithTimeout(context.Background(), time.Second) // virtual: ends when nothing else can move
+		bus.Send(tctx, "a")
+		tcancel()
+		verifrt.WaitIdle()
+		for i := range got {
+			if len(got[i]) != 1 || got[i][0] != "a" {
+				verifrt.Logf("FAIL missed-behind-stalled %s ## healthy listener %d (registered behind a stalled one, live for the whole send) received %v", name, i, got[i])
+			}
+		}
+		scancel()
+		for _, c := range ctxs {
+			c()
+		}
+		verifrt.WaitIdle()
+		if a := verifrt.Alive(); len(a) > 0 {
+			verifrt.Logf("FAIL goroutine-left %s ## %v", name, a)
+		}
+		_ = stalled
+		verifrt.Logf("OUT %v", got)
 	}
 }
 
@@ -474,6 +518,10 @@ func main() {
 	// most one preemption, and the smaller sibling above without a bound
 	bus("2s2e-2cancel", -2, 1, [][]string{{"a", "b"}, {"x", "y"}}, lspec{pre: true, cancel: true, abandon: -1}, lspec{pre: true, cancel: true, abandon: -1})
 
+	for _, n := range []int{1, 2} {
+		name := fmt.Sprintf("bus/stalled-first+%d-healthy/send with a deadline", n)
+		h.Sched(name, -1, -1, busStalledBody(name, n), hx.StdOracle)
+	}
 	res := func(kind string, q, t int, writes []string, subs ...subSpec) {
 		var ss []string
 		for _, s := range subs {
